@@ -186,6 +186,25 @@ pub fn run(ctx: &mut Ctx, real: &mut Real, sw: &Sweep) {
             lists = comps.iter().map(|(c, n)| frags(*c, *n, &alpha)).collect();
             ctx.sometimes("instructions swept with the reduced alphabet");
         }
+        // RNG-driven instructions also run under extreme but ordered (min < max) random bounds
+        let mut bases = bases.clone();
+        if ft.random {
+            let mut ext = M::default();
+            ext.cfg.min_random_integer = i32::MIN;
+            ext.cfg.max_random_integer = i32::MAX;
+            ext.cfg.min_random_float = f32::MIN;
+            ext.cfg.max_random_float = f32::MAX;
+            ext.cfg.max_points_in_random_expressions = 6;
+            ext.cfg.new_erc_name_probability = 1.0;
+            bases.push(("extreme-config", ext));
+            let mut tiny = M::default();
+            tiny.cfg.min_random_integer = i32::MAX - 1;
+            tiny.cfg.max_random_integer = i32::MAX;
+            tiny.cfg.min_random_float = 0.0;
+            tiny.cfg.max_random_float = f32::MIN_POSITIVE;
+            tiny.cfg.new_erc_name_probability = 0.0;
+            bases.push(("narrow-config", tiny));
+        }
         for (blabel, base) in &bases {
             if !sw.only_missing {
                 for_product(&lists, |cur| {
